@@ -49,6 +49,25 @@ CLAIMED.update({
     ),
 })
 
+CLAIMED.update({
+    "C11": dict(
+        technique="path-sensitive derived-state (typestate-like) analysis: predicate abstraction over branch atoms with exhaustive path enumeration and callee inlining; identity-comparison lint; set comparison of setter write-sets vs compare() read-set; kernel locality lint",
+        text="Every feasible path (308 on today's tree) of every public method and property setter of RandMeth, IncomprRandMeth and Fourier is enumerated; on each, every "
+        "derived field must be recomputed after the last write of each of its sources (frozen, reviewed dependency table) - this quantifies over all call histories because "
+        "coherence is an inductive invariant of single calls. Plus: no identity comparison of non-singletons anywhere, generators hold a deep copy of the model, CovModel.__eq__ "
+        "reads every field a setter writes (and must be exact: known finding), kernels read positions only at the output index, no global RNG, update precedes generation. "
+        "Two genuine defects were repaired (fix: commits), one is a recorded known finding.",
+        ref="DESIGN.md section 4 C11, section 3 E2/E4",
+    ),
+    "C17": dict(
+        technique="same path-sensitive derived-state analysis for the Fourier generator + must-precede guard check (parity) + skeleton match of the mode-grid construction",
+        text="After every change of period, mode_no or model (all feasible paths of Fourier.update and its setters) delta_k, the mode mesh, amplitudes and spectrum factors are "
+        "recomputed in dependency order; odd mode numbers raise before a mesh is built; the mesh is arange(-n/2 dk, n/2 dk, dk) per axis with dk = 2 pi/period*[1, anis] and the phase "
+        "is <k, x> over all components entering through sin/cos only. These are necessary conditions of exact periodicity; floating-point exactness is not decided.",
+        ref="DESIGN.md section 4 C17",
+    ),
+})
+
 NOT_APPLICABLE = {
     "C01": "distributional property over seeds (ensemble mean/covariance at Monte-Carlo rate); no code-shape clause beyond those decided under C04/C11/C12 - needs sampling or quadrature, a different technique family",
 }
@@ -101,7 +120,7 @@ def main():
     print("MANIFEST.json: %d checks, %d not_applicable" % (len(checks), len(na)))
 
 
-SOURCE_COMMITS = ["c203823", "0fd70cf", "8261140", "84533cc"]
+SOURCE_COMMITS = ["c203823", "0fd70cf", "8261140", "84533cc", "edeae19", "d657645"]
 
 if __name__ == "__main__":
     main()
